@@ -1,0 +1,135 @@
+//go:build verif
+
+// Copyright Istio Authors
+//
+// Licensed under the Apache License, Version 2.0 (the "License");
+// you may not use this file except in compliance with the License.
+// You may obtain a copy of the License at
+//
+//     http://www.apache.org/licenses/LICENSE-2.0
+//
+// Unless required by applicable law or agreed to in writing, software
+// distributed under the License is distributed on an "AS IS" BASIS,
+// WITHOUT WARRANTIES OR CONDITIONS OF ANY KIND, either express or implied.
+// See the License for the specific language governing permissions and
+// limitations under the License.
+
+package model
+
+import (
+	"istio.io/istio/pkg/verif"
+)
+
+// ---------------------------------------------------------------------------------------------
+// C13 (and C01): what is stored for a registry's report, and whether it needs a push
+// ---------------------------------------------------------------------------------------------
+
+// The identity of an endpoint and the comparison of two endpoints are taken as fixed functions of the
+// endpoint objects (they read only fields of the endpoints, which are not written here).
+//
+//verif:pure (*IstioEndpoint).Key (*IstioEndpoint).Equals
+
+func epsPresent(eps []*IstioEndpoint) bool {
+	return verif.Forall(func(i int) bool { return !(0 <= i && i < len(eps)) || eps[i] != nil })
+}
+
+// keyIn: some endpoint among the first n of eps has this key.
+func keyIn(eps []*IstioEndpoint, n int, key string) bool {
+	return verif.Exists(func(j int) bool { return 0 <= j && j < n && j < len(eps) && eps[j].Key() == key })
+}
+
+// lastWithKey: eps[j] is the last endpoint among the first n with its key (the one a key-indexed map of
+// the list holds).
+func lastWithKey(eps []*IstioEndpoint, n int, j int) bool {
+	return 0 <= j && j < n && j < len(eps) &&
+		verif.Forall(func(k int) bool { return !(j < k && k < n && k < len(eps)) || eps[k].Key() != eps[j].Key() })
+}
+
+// changedOrNewAndReady: the i-th incoming endpoint differs from the old endpoint of the same identity, or
+// is new and ready to be sent (healthy, or unhealthy endpoints are to be sent).
+func changedOrNewAndReady(old, incoming []*IstioEndpoint, i int) bool {
+	nie := incoming[i]
+	if keyIn(old, len(old), nie.Key()) {
+		return verif.Exists(func(j int) bool {
+			return lastWithKey(old, len(old), j) && old[j].Key() == nie.Key() && !old[j].Equals(nie)
+		})
+	}
+	return nie.HealthStatus != UnHealthy || nie.SendUnhealthyEndpoints
+}
+
+// from the statement: "the endpoints it is given are exactly the endpoints last reported by each registry
+// ... no registry's latest report is lost" - what is stored for the shard is the incoming report itself,
+// element by element; and (C01: "whenever the control plane ... skips ... the push, the resources it did
+// not resend are identical") no push is needed only if every incoming endpoint is unchanged or new-and-not-
+// ready, and no old endpoint has disappeared.
+//
+//verif:contract endpointUpdateRequiresPush
+//verif:prop C13 C01
+func ctEndpointUpdateRequiresPush(old []*IstioEndpoint, incoming []*IstioEndpoint) {
+	verif.Requires("endpoints-present", epsPresent(old) && epsPresent(incoming))
+	res, needPush := endpointUpdateRequiresPush(old, incoming)
+	verif.Ensures("stored-list-is-the-report", len(res) == len(incoming) &&
+		verif.Forall(func(i int) bool { return !(0 <= i && i < len(incoming)) || res[i] == incoming[i] }))
+	verif.Ensures("first-report-always-pushed", old != nil || needPush)
+	verif.Ensures("push-iff-something-changed-appeared-ready-or-disappeared", old == nil || needPush ==
+		(verif.Exists(func(i int) bool { return 0 <= i && i < len(incoming) && changedOrNewAndReady(old, incoming, i) }) ||
+			verif.Exists(func(j int) bool { return 0 <= j && j < len(old) && !keyIn(incoming, len(incoming), old[j].Key()) })))
+}
+
+//verif:invariant endpointUpdateRequiresPush 1
+func invEupOldMap(oldIstioEndpoints []*IstioEndpoint, omap map[string]*IstioEndpoint, rangeindex int) bool {
+	n := rangeindex + 1
+	return omap != nil && verif.Fresh(omap) && rangeindex < len(oldIstioEndpoints) && verif.Forall(func(key string) bool {
+		v, in := omap[key]
+		if !keyIn(oldIstioEndpoints, n, key) {
+			return !in
+		}
+		return in && verif.Exists(func(j int) bool {
+			return lastWithKey(oldIstioEndpoints, n, j) && oldIstioEndpoints[j].Key() == key && oldIstioEndpoints[j] == v
+		})
+	})
+}
+
+//verif:invariant endpointUpdateRequiresPush 2
+func invEupNewMap(oldIstioEndpoints, incomingEndpoints []*IstioEndpoint, omap, nmap map[string]*IstioEndpoint, rangeindex int) bool {
+	n := rangeindex + 1
+	return nmap != nil && verif.Fresh(nmap) && !verif.Same(nmap, omap) && rangeindex < len(incomingEndpoints) &&
+		invEupOldMap(oldIstioEndpoints, omap, len(oldIstioEndpoints)-1) &&
+		verif.Forall(func(key string) bool {
+			_, in := nmap[key]
+			return in == keyIn(incomingEndpoints, n, key)
+		})
+}
+
+//verif:invariant endpointUpdateRequiresPush 3
+func invEupCompare(oldIstioEndpoints, incomingEndpoints, newIstioEndpoints []*IstioEndpoint, omap, nmap map[string]*IstioEndpoint, needPush bool, rangeindex int) bool {
+	n := rangeindex + 1
+	return rangeindex < len(incomingEndpoints) && verif.Fresh(newIstioEndpoints) &&
+		invEupOldMap(oldIstioEndpoints, omap, len(oldIstioEndpoints)-1) &&
+		invEupNewMap(oldIstioEndpoints, incomingEndpoints, omap, nmap, len(incomingEndpoints)-1) &&
+		len(newIstioEndpoints) == n &&
+		verif.Forall(func(i int) bool { return !(0 <= i && i < n) || newIstioEndpoints[i] == incomingEndpoints[i] }) &&
+		needPush == verif.Exists(func(i int) bool {
+			return 0 <= i && i < n && changedOrNewAndReady(oldIstioEndpoints, incomingEndpoints, i)
+		})
+}
+
+//verif:invariant endpointUpdateRequiresPush 4
+func invEupRemoved(oldIstioEndpoints, incomingEndpoints, newIstioEndpoints []*IstioEndpoint, nmap map[string]*IstioEndpoint, needPush bool, rangeindex int) bool {
+	n := rangeindex + 1
+	return rangeindex < len(oldIstioEndpoints) && !needPush &&
+		len(newIstioEndpoints) == len(incomingEndpoints) &&
+		verif.Forall(func(i int) bool {
+			return !(0 <= i && i < len(incomingEndpoints)) || newIstioEndpoints[i] == incomingEndpoints[i]
+		}) &&
+		verif.Forall(func(key string) bool {
+			_, in := nmap[key]
+			return in == keyIn(incomingEndpoints, len(incomingEndpoints), key)
+		}) &&
+		!verif.Exists(func(i int) bool {
+			return 0 <= i && i < len(incomingEndpoints) && changedOrNewAndReady(oldIstioEndpoints, incomingEndpoints, i)
+		}) &&
+		verif.Forall(func(j int) bool {
+			return !(0 <= j && j < n) || keyIn(incomingEndpoints, len(incomingEndpoints), oldIstioEndpoints[j].Key())
+		})
+}
